@@ -143,9 +143,26 @@ def cellunions(acc, shard, nshards, tier):
                     harness.process(mod, acc, "text", {"text": "||".join(combo)}, "L1-alternative-orders")
 
 
+def same_release_sets():
+    """Two bounds that share epoch and release and differ only in the pre/post/dev part, with an === clause (which
+    asks the computed range for membership, i.e. for its text) before, between or after them."""
+    from packaging.version import Version
+
+    tagged = ["1.0.dev1", "1.0a1", "1.0rc2", "1.0", "1.0.post1", "1", "1.post1", "2!3.1.dev1", "2!3.1.0"]
+    for lo in tagged:
+        for hi in tagged:
+            if Version(lo) < Version(hi) and Version(lo).release[:1] == Version(hi).release[:1] and Version(lo).epoch == Version(hi).epoch:
+                for t in (lo, hi):
+                    a, b, c = f">={lo}", f"<{hi}", f"==={t}"
+                    yield from (",".join(x) for x in ((a, b, c), (c, a, b), (a, c, b), (b, a, c)))
+                yield f">={lo},<{hi},!={lo},==={hi}"
+
+
 def fixed(acc):
     mod = sys.modules[MOD]
     for t in FIXED:
+        harness.process(mod, acc, "text", {"text": t}, "fixed-strings")
+    for t in same_release_sets():
         harness.process(mod, acc, "text", {"text": t}, "fixed-strings")
 
 
